@@ -501,14 +501,119 @@ theorem sprintFields_mpf : ∀ {fs fs' : List (Bytes × GoVal)}, MPF fs fs' → 
 end
 
 
+/-! ## `fmt.Sprint(values.ResolveDrops(v))` of related values -/
+
+theorem keysOK_resolveDropsVals {kvs : List (GoVal × GoVal)} (hk : KeysOK kvs) : KeysOK (resolveDropsVals kvs) := by
+  rw [resolveDropsVals_eq_map]
+  constructor
+  · intro kv hkv
+    obtain ⟨kv', hkv', rfl⟩ := List.mem_map.mp hkv
+    exact hk.1 kv' hkv'
+  · rw [List.pairwise_map]
+    exact hk.2
+
+mutual
+theorem sprintR_mp : ∀ {a b : GoVal}, MP a b → RRel true Eq (sprint a.resolveDrops) (sprint b.resolveDrops)
+  | _, _, .refl v => RRel.of_eq (fun _ => rfl) rfl
+  | _, _, .slice _ hl => by
+    simp only [resolveDrops_slice]
+    rw [sprint, sprint]
+    exact rrel_true_bind_soft (sprintAllR_mp hl) (fun _ => RRel.of_eq (fun _ => rfl) rfl)
+  | _, _, .array _ hl => by
+    simp only [resolveDrops_array]
+    rw [sprint, sprint]
+    exact rrel_true_bind_soft (sprintAllR_mp hl) (fun _ => RRel.of_eq (fun _ => rfl) rfl)
+  | _, _, @MP.map _ _ kvs mid kvs' _ hk _ hm hp _ => by
+    simp only [resolveDrops_map]
+    rw [sprint, sprint]
+    have hA := sprintKVsR_mpv hm
+    have sA := sprintKVs_soft (resolveDropsVals kvs)
+    have sC := sprintKVs_soft (resolveDropsVals kvs')
+    have hp' : (resolveDropsVals mid).Perm (resolveDropsVals kvs') := by
+      rw [resolveDropsVals_eq_map, resolveDropsVals_eq_map]; exact hp.map _
+    rcases travM_perm (f := kvText) hp' with ⟨bs, cs, h1, h2, hpe⟩ | ⟨h1, h2⟩
+    · rw [← sprintKVs_eq_travM] at h1 h2
+      rw [h2]
+      cases hAe : sprintKVs (resolveDropsVals kvs) with
+      | ok as =>
+        rw [hAe, h1] at hA
+        have : as = bs := hA
+        subst this
+        exact mapText_perm_agree hpe (eKeysOK_of_keys (sprintKVs_keys hAe) (keysOK_resolveDropsVals hk))
+      | unmodelled w => exact RRel.unmL rfl _ _
+      | err e => rw [hAe] at sA; exact sA.elim
+      | panic w => rw [hAe] at sA; exact sA.elim
+    · rw [← sprintKVs_eq_travM] at h2
+      cases hC : sprintKVs (resolveDropsVals kvs') with
+      | ok cs => exact absurd hC (h2 cs)
+      | unmodelled w => exact RRel.unmR rfl _ _
+      | err e => rw [hC] at sC; exact sC.elim
+      | panic w => rw [hC] at sC; exact sC.elim
+  | _, _, .mapVals _ _ _ _ hm => by
+    simp only [resolveDrops_map]
+    rw [sprint, sprint]
+    exact rrel_true_bind_soft (sprintKVsR_mpv hm) (fun _ => RRel.of_eq (fun _ => rfl) rfl)
+  | _, _, .mapSlice hm => by
+    simp only [resolveDrops_mapSlice]
+    rw [sprint, sprint]
+    exact rrel_true_bind_soft (sprintItemsR_mpv hm) (fun _ => RRel.of_eq (fun _ => rfl) rfl)
+  | _, _, .keyedMap _ hf => by
+    simp only [resolveDrops_keyedMap]
+    rw [sprint, sprint]
+    exact rrel_true_bind_soft (sprintFieldsR_mpf hf) (fun _ => RRel.of_eq (fun _ => rfl) rfl)
+  | _, _, .struct hf => by
+    simp only [resolveDrops_struct]
+    exact sprint_mp (.struct hf)
+  | _, _, .drop h => by
+    simp only [resolveDrops_drop]
+    exact sprintR_mp h
+  | _, _, .ptr (.refl v) => RRel.of_eq (fun _ => rfl) rfl
+  | _, _, .ptr (.drop h) => by
+    simp only [GoVal.resolveDrops]
+    exact sprintR_mp h
+  | _, _, .ptr (.slice _ _) | _, _, .ptr (.array _ _) | _, _, .ptr (.map _ _ _ _ _ _ _ _)
+  | _, _, .ptr (.mapVals _ _ _ _ _) | _, _, .ptr (.mapSlice _) | _, _, .ptr (.keyedMap _ _)
+  | _, _, .ptr (.struct _) | _, _, .ptr (.ptr _) => by
+    simp only [GoVal.resolveDrops]; rw [sprint, sprint]; exact RRel.unmL rfl _ _
+theorem sprintAllR_mp : ∀ {xs ys : List GoVal}, MPL xs ys →
+    RRel true Eq (sprintAll (resolveDropsList xs)) (sprintAll (resolveDropsList ys))
+  | _, _, .nil => RRel.of_eq (fun _ => rfl) rfl
+  | _, _, .cons hx h => by
+    rw [resolveDropsList, resolveDropsList, sprintAll, sprintAll]
+    exact rrel_true_bind_soft (sprintR_mp hx) (fun _ => rrel_true_bind_soft (sprintAllR_mp h) (fun _ => RRel.of_eq (fun _ => rfl) rfl))
+theorem sprintKVsR_mpv : ∀ {kvs kvs' : List (GoVal × GoVal)}, MPV kvs kvs' →
+    RRel true Eq (sprintKVs (resolveDropsVals kvs)) (sprintKVs (resolveDropsVals kvs'))
+  | _, _, .nil => RRel.of_eq (fun _ => rfl) rfl
+  | _, _, .cons k hv h => by
+    rw [resolveDropsVals, resolveDropsVals, sprintKVs, sprintKVs]
+    exact rrel_true_bind_soft (RRel.of_eq (fun _ => rfl) rfl) (fun _ => rrel_true_bind_soft (sprintR_mp hv) (fun _ =>
+      rrel_true_bind_soft (sprintKVsR_mpv h) (fun _ => RRel.of_eq (fun _ => rfl) rfl)))
+theorem sprintItemsR_mpv : ∀ {kvs kvs' : List (GoVal × GoVal)}, MPV kvs kvs' →
+    RRel true Eq (sprintItems (resolveDropsVals kvs)) (sprintItems (resolveDropsVals kvs'))
+  | _, _, .nil => RRel.of_eq (fun _ => rfl) rfl
+  | _, _, .cons k hv h => by
+    rw [resolveDropsVals, resolveDropsVals, sprintItems, sprintItems]
+    exact rrel_true_bind_soft (RRel.of_eq (fun _ => rfl) rfl) (fun _ => rrel_true_bind_soft (sprintR_mp hv) (fun _ =>
+      rrel_true_bind_soft (sprintItemsR_mpv h) (fun _ => RRel.of_eq (fun _ => rfl) rfl)))
+theorem sprintFieldsR_mpf : ∀ {fs fs' : List (Bytes × GoVal)}, MPF fs fs' →
+    RRel true Eq (sprintFields (resolveDropsFields fs)) (sprintFields (resolveDropsFields fs'))
+  | _, _, .nil => RRel.of_eq (fun _ => rfl) rfl
+  | _, _, .cons k hv h => by
+    rw [resolveDropsFields, resolveDropsFields, sprintFields, sprintFields]
+    exact rrel_true_bind_soft (sprintR_mp hv) (fun _ => rrel_true_bind_soft (sprintFieldsR_mpf h) (fun _ => RRel.of_eq (fun _ => rfl) rfl))
+end
+
+/-- `fmt.Sprint(values.ResolveDrops(·))` of related values -/
+theorem sprintRR_mp {a b : GoVal} (h : MP a b) : RRel true Eq (sprintR a) (sprintR b) := sprintR_mp h
+
+
 /-! ## `writeObject` and the chunks of the standard output layer -/
 
 theorem rrel_eq_refl {α : Type} (r : Res Cause α) : RRel true Eq r r := RRel.of_eq (fun _ => rfl) rfl
 
-/-- `writeObjectL` of a value that is not nil, a time, a byte string, a float, a sequence, an ordered
-    map or a pointer is `fmt.Sprint` -/
-theorem writeObjectL_sprint_of_tag {v : GoVal} (h : headTag v = 8 ∨ headTag v = 10 ∨ headTag v = 14 ∨ headTag v = 15) :
-    writeObjectL v = sprint v := by
+/-- `writeObjectL` of a map or a struct is `fmt.Sprint` after `values.ResolveDrops` -/
+theorem writeObjectL_sprint_of_tag {v : GoVal} (h : headTag v = 8 ∨ headTag v = 10 ∨ headTag v = 15) :
+    writeObjectL v = sprintR v := by
   cases v <;> simp [headTag] at h <;> rfl
 
 theorem writeWF : ∀ n : Nat,
@@ -533,28 +638,32 @@ theorem writeWF : ∀ n : Nat,
         exact ihOs xs ys (by simp at hs; omega) hl
       | map kt vt hv hk hn hm hp ht =>
         rw [writeObjectL_sprint_of_tag (.inl rfl), writeObjectL_sprint_of_tag (.inl rfl)]
-        exact sprint_mp (MP.map kt vt hv hk hn hm hp ht)
+        exact sprintRR_mp (MP.map kt vt hv hk hn hm hp ht)
       | mapVals kt vt hv hn hm =>
         rw [writeObjectL_sprint_of_tag (.inl rfl), writeObjectL_sprint_of_tag (.inl rfl)]
-        exact sprint_mp (MP.mapVals kt vt hv hn hm)
+        exact sprintRR_mp (MP.mapVals kt vt hv hn hm)
       | mapSlice hm =>
         simp only [writeObjectL]
-        exact rrel_true_bind_soft (sprintItems_mpv hm) (fun _ => rrel_eq_refl _)
+        exact rrel_true_bind_soft (sprintItemsR_mpv hm) (fun _ => rrel_eq_refl _)
       | keyedMap _ hf =>
         rw [writeObjectL_sprint_of_tag (.inr (.inl rfl)), writeObjectL_sprint_of_tag (.inr (.inl rfl))]
-        exact sprint_mp (MP.keyedMap ‹_› hf)
+        exact sprintRR_mp (MP.keyedMap ‹_› hf)
       | struct hf =>
-        rw [writeObjectL_sprint_of_tag (.inr (.inr (.inr rfl))), writeObjectL_sprint_of_tag (.inr (.inr (.inr rfl)))]
-        exact sprint_mp (MP.struct hf)
+        rw [writeObjectL_sprint_of_tag (.inr (.inr rfl)), writeObjectL_sprint_of_tag (.inr (.inr rfl))]
+        exact sprintRR_mp (MP.struct hf)
       | drop h' =>
-        rw [writeObjectL_sprint_of_tag (.inr (.inr (.inl rfl))), writeObjectL_sprint_of_tag (.inr (.inr (.inl rfl)))]
-        exact sprint_mp (MP.drop h')
+        rw [writeObjectL_drop, writeObjectL_drop]
+        exact ihO _ _ (by simp at hs; omega) h'
       | @ptr v w h' =>
-        -- a pointer: to a pointer (outside the model), else `Sprint` of the value it holds
+        -- a pointer: to a drop (the drop's value), to a pointer (outside the model), else `Sprint` of the value it holds
         have ht := h'.headTag_eq
         cases v <;> cases w <;> simp [headTag] at ht <;>
           first
             | exact RRel.unmL rfl _ _
+            | (rw [writeObjectL_ptr_drop, writeObjectL_ptr_drop]
+               cases h' with
+               | refl => exact rrel_eq_refl _
+               | drop h'' => exact ihO _ _ (by simp at hs; omega) h'')
             | (simp only [writeObjectL]; exact sprint_mp h')
     have hOs : ∀ xs ys : List GoVal, sizeOf xs < n + 1 → MPL xs ys → RRel true Eq (writeObjects xs) (writeObjects ys) := by
       intro xs ys hs h
@@ -578,7 +687,19 @@ theorem writeWF : ∀ n : Nat,
         exact ihCs xs ys (by simp at hs; omega) hl
       | mapSlice hm =>
         simp only [writeChunksL]
-        exact sprintItems_mpv hm
+        exact sprintItemsR_mpv hm
+      | drop h' =>
+        rw [writeChunksL_drop, writeChunksL_drop]
+        exact ihC _ _ (by simp at hs; omega) h'
+      | @ptr v w h' =>
+        have ht := h'.headTag_eq
+        cases v <;> cases w <;> simp [headTag] at ht <;>
+          first
+            | (rw [writeChunksL_ptr_drop, writeChunksL_ptr_drop]
+               cases h' with
+               | refl => exact rrel_eq_refl _
+               | drop h'' => exact ihC _ _ (by simp at hs; omega) h'')
+            | (simp only [writeChunksL]; exact rrel_true_bind_soft hOab (fun _ => rrel_eq_refl _))
       | _ =>
         simp only [writeChunksL]
         exact rrel_true_bind_soft hOab (fun _ => rrel_eq_refl _)
